@@ -69,6 +69,21 @@ fn probes(sess: &mut Sess) -> Result<Vec<String>, Crash> {
     let mut out = vec![];
     let snap = sess.interp.verif_snapshot();
     out.push(format!("{:?}", snap));
+    // what the finished run left behind for the control commands: a point to continue
+    // from, frames, loops, the DATA cursor
+    for cmd in ["CONT", "RETURN", "NEXT C", "READ Q9$ : PRINT Q9$", "CONT"] {
+        let mut o = vec![];
+        let mut b = 60u64;
+        let stop = sess.line_and_run(cmd, &mut b, &mut o)?;
+        let how = match &stop {
+            RunStop::Error(e) => format!("error {:?} {:?}", e.kind, e.line),
+            other => format!("{:?}", other),
+        };
+        out.push(format!("{} -> {:?} / {}", cmd, o, how));
+        if sess.state()? != St::Idle {
+            sess.brk()?;
+        }
+    }
     let mut names: Vec<String> = NUM_VARS.iter().chain(STR_VARS.iter()).map(|s| s.to_string()).collect();
     for i in 1..6 {
         names.push(format!("Z{}", i));
@@ -261,7 +276,7 @@ pub fn property() -> Property {
     ];
     Property {
         id: "C10",
-        rule: "A grammar-generated program (INPUT/STOP allowed; one case in twelve: no program at all) is entered, then a history of 0-40 intents is applied to the same interpreter: RUN / CONT, continue n turns, breaks, replies incl. replies of several lines (so runs are left completed, failed, broken, awaiting input, or replied-to-then-broken), immediate statements that assign scalars and cells, DIM arrays the program also uses, open FOR loops, READ part of the DATA, call the program's functions, GOTO / GOSUB into the program, TRACE/NOTRACE, failing lines. Then both this interpreter and a fresh one holding the same lines (same option flags) are seeded alike and RUN under the same reply script. Oracle: identical event sequence (prints, notices, replies consumed, trace/warning records, STOP notices) and outcome; afterwards identical state snapshot (hook) and identical PRINT probes of all pool scalars, counters and sample cells of every array. Non-trivial: the snapshot before the final RUN shows live state (variables, arrays, frames, loops, data cursor, functions, breakpoint or a pending reply) and the run makes >= 3 calls; distinct by program + call-kind/outcome sequence of the history.",
+        rule: "A grammar-generated program (INPUT/STOP allowed; one case in twelve: no program at all) is entered, then a history of 0-40 intents is applied to the same interpreter: RUN / CONT, continue n turns, breaks, replies incl. replies of several lines (so runs are left completed, failed, broken, awaiting input, or replied-to-then-broken), immediate statements that assign scalars and cells, DIM arrays the program also uses, open FOR loops, READ part of the DATA, call the program's functions, GOTO / GOSUB into the program, TRACE/NOTRACE, failing lines. Then both this interpreter and a fresh one holding the same lines (same option flags) are seeded alike and RUN under the same reply script. Oracle: identical event sequence (prints, notices, replies consumed, trace/warning records, STOP notices) and outcome; afterwards identical state snapshot (hook), identical behaviour of the control probes CONT / RETURN / NEXT / READ typed at the prompt, and identical PRINT probes of all pool scalars, counters and sample cells of every array. Non-trivial: the snapshot before the final RUN shows live state (variables, arrays, frames, loops, data cursor, functions, breakpoint or a pending reply) and the run makes >= 3 calls; distinct by program + call-kind/outcome sequence of the history.",
         assumptions: vec!["runs are bounded by 600 program-advancing calls; budget-limited runs are compared event by event up to the budget"],
         fuzz: None,
         families,
